@@ -373,6 +373,28 @@ fn run_uis(prog: &Prog, schedule: Vec<usize>, random: bool, seed: u64) -> Outcom
 
 // ---------------------------------------------------------------------------------------------
 // RobustUniqueIndexSet (C09): owner id of thread i is 100 + i
+/// C04: one thread (a process) dies after a random number of atomic steps, wherever that is; the others
+/// get a recovery of its owner id appended (they skip it while the owner is alive)
+fn with_fuse(mut p: Prog, rng: &mut Rng, name: &str) -> Prog {
+    let old = p.header.split(' ').next().unwrap().to_string();
+    p.header = p.header.replacen(&old, name, 1);
+    for t in p.threads.iter_mut() {
+        t.retain(|o| o != "die");
+    }
+    let writers: Vec<usize> = (0..p.threads.len()).filter(|&i| p.threads[i].iter().any(|o| o.starts_with("add") || o.starts_with("acquire"))).collect();
+    if writers.is_empty() {
+        return p;
+    }
+    let v = *rng.pick(&writers);
+    p.threads[v].insert(0, format!("die_in {}", rng.below(45)));
+    for i in 0..p.threads.len() {
+        if i != v && !p.threads[i].iter().any(|o| o.starts_with("recover")) {
+            let at = rng.below(p.threads[i].len() as u64 + 1) as usize;
+            p.threads[i].insert(at, format!("recover {}", 100 + v));
+        }
+    }
+    p
+}
 fn gen_ruis_prog(rng: &mut Rng) -> Prog {
     let cap = rng.range(1, 3);
     let n = rng.range(2, 3) as usize;
@@ -441,13 +463,14 @@ fn run_ruis(prog: &Prog, schedule: Vec<usize>, random: bool, seed: u64) -> Outco
                         } else { None }
                     }
                     "borrowed" => Some(format!("{}", s.borrowed_indices())),
-                    "recover" | "recover_lock" if { sched::gate(tid); !dead_flags[t[1].parse::<usize>().unwrap() - 100].load(std::sync::atomic::Ordering::SeqCst) } => Some("skipped".into()),
+                    "recover" | "recover_lock" if { sched::gate(tid); !(dead_flags[t[1].parse::<usize>().unwrap() - 100].load(std::sync::atomic::Ordering::SeqCst) || sched::has_died(t[1].parse::<usize>().unwrap() - 100)) } => Some("skipped".into()),
                     "recover" | "recover_lock" => {
                         let dead: u64 = t[1].parse().unwrap();
                         let mode = if t[0] == "recover" { ReleaseMode::Default } else { ReleaseMode::LockIfLastIndex };
                         Some(rs(unsafe { s.recover(mode, |o, _| o == OwnerId::new(dead).unwrap(), |_, _| {}) }).to_string())
                     }
                     "die" => { dead_flags[tid].store(true, std::sync::atomic::Ordering::SeqCst); return; }
+                    "die_in" => { sched::arm_fuse(tid, t[1].parse().unwrap()); None }
                     _ => panic!("bad op"),
                 };
                 if let Some(r) = r {
@@ -550,13 +573,14 @@ fn run_container<const W: usize>(prog: &Prog, schedule: Vec<usize>, random: bool
                             Some(format!("true {}", items.join(";")).trim_end().to_string())
                         } else { Some("false".into()) }
                     }
-                    "recover" | "recover_lock" if { sched::gate(tid); !dead_flags[t[1].parse::<usize>().unwrap() - 100].load(std::sync::atomic::Ordering::SeqCst) } => Some("skipped".into()),
+                    "recover" | "recover_lock" if { sched::gate(tid); !(dead_flags[t[1].parse::<usize>().unwrap() - 100].load(std::sync::atomic::Ordering::SeqCst) || sched::has_died(t[1].parse::<usize>().unwrap() - 100)) } => Some("skipped".into()),
                     "recover" | "recover_lock" => {
                         let dead: u64 = t[1].parse().unwrap();
                         let mode = if t[0] == "recover" { ReleaseMode::Default } else { ReleaseMode::LockIfLastIndex };
                         Some(rs(unsafe { c.recover(OwnerId::new(dead).unwrap(), |_| true, mode) }).to_string())
                     }
                     "die" => { dead_flags[tid].store(true, std::sync::atomic::Ordering::SeqCst); return; }
+                    "die_in" => { sched::arm_fuse(tid, t[1].parse().unwrap()); None }
                     _ => panic!("bad op"),
                 };
                 if let Some(r) = r {
@@ -573,6 +597,8 @@ pub fn generate(component: &str, rng: &mut Rng) -> Prog {
     match component {
         "event" => crate::event::generate(rng),
         "container" => gen_container_prog(rng),
+        "containerx" => with_fuse(gen_container_prog(rng), rng, "containerx"),
+        "ruisx" => with_fuse(gen_ruis_prog(rng), rng, "ruisx"),
         "ruis" => gen_ruis_prog(rng),
         "uis" => gen_uis_prog(rng),
         "conn" => gen_conn_prog(rng, false),
@@ -590,8 +616,8 @@ pub fn run(component: &str, prog: &Prog, schedule: Vec<usize>, random: bool, see
         "event" => crate::event::run(prog, schedule, random, seed),
         "conn" | "conn-misuse" => run_conn(prog, schedule, random, seed),
         "uis" => run_uis(prog, schedule, random, seed),
-        "ruis" => run_ruis(prog, schedule, random, seed),
-        "container" => match hget(&prog.header, "width") {
+        "ruis" | "ruisx" => run_ruis(prog, schedule, random, seed),
+        "container" | "containerx" => match hget(&prog.header, "width") {
             1 => run_container::<1>(prog, schedule, random, seed),
             2 => run_container::<2>(prog, schedule, random, seed),
             _ => panic!("unsupported width"),
